@@ -12,6 +12,7 @@ pub mod c06;
 pub mod c07;
 pub mod c08;
 pub mod c09;
+pub mod c10;
 pub mod c11;
 pub mod c12;
 pub mod c13;
@@ -37,6 +38,7 @@ pub const TABLE: &[(&str, RunFn, ReplayFn)] = &[
     ("C07", c07::run, c07::replay),
     ("C08", c08::run, c08::replay),
     ("C09", c09::run, c09::replay),
+    ("C10", c10::run, c10::replay),
     ("C11", c11::run, c11::replay),
     ("C12", c12::run, c12::replay),
     ("C13", c13::run, c13::replay),
